@@ -199,6 +199,47 @@ def _segs(vs, closed):
     return out
 
 
+def _far_offset_case(rng):
+    """far_offset_exact: a unit-size axis-aligned polyline on a dyadic grid, translated by 2^24 .. 2^31 per axis. Every
+    coordinate, length, fraction of the length, midpoint and subdivision point is exactly representable, so the code must
+    agree with the exact model to a tolerance relative to the FEATURE size; a formula that subtracts large numbers
+    (|a|^2 + |b|^2 - 2 a.b) loses everything here."""
+    off = [rng.choice([1, -1]) * 2.0 ** rng.randint(24, 31) for _ in range(3)]
+    closed = rng.random() < 0.4
+    p0 = [rng.randint(-16, 16) / 8 for _ in range(3)]
+    if closed:
+        ax1, ax2 = rng.sample(range(3), 2)
+        d1, d2 = rng.choice([0.5, 1.0, 2.0, 4.0]) * rng.choice([1, -1]), rng.choice([0.5, 1.0, 2.0, 4.0]) * rng.choice([1, -1])
+        steps = [(ax1, d1), (ax2, d2), (ax1, -d1)]
+    else:
+        steps = [(rng.randrange(3), rng.choice([0.5, 1.0, 2.0, 4.0]) * rng.choice([1, -1])) for _ in range(rng.randint(1, 6))]
+    pts = [p0]
+    for ax, d in steps:
+        q_ = list(pts[-1])
+        q_[ax] += d
+        pts.append(q_)
+        if rng.random() < 0.12:
+            pts.append(list(q_))                               # zero-length segment
+    pts = [[x + o for x, o in zip(p, off)] for p in pts]
+    segs = _segs(pts, closed)
+    r = rng.random()
+    if r < 0.2:
+        return {"kind": "lengths_far_offset_exact", "v": pts, "closed": closed}
+    if r < 0.5:
+        single = rng.random() < 0.3
+        fs = [rng.choice([0.0, 1.0, rng.randint(0, 16) / 16])] if single else \
+            [rng.choice([0.0, 1.0, rng.randint(0, 16) / 16, rng.randint(0, 64) / 64]) for _ in range(rng.randint(1, 4))]
+        return {"kind": "point_along_far_offset_exact" + ("_closed" if closed else "_open"), "v": pts, "closed": closed,
+                "fs": fs, "single": single}
+    if r < 0.8:
+        mask = None if rng.random() < 0.5 else [rng.random() < 0.6 for _ in segs]
+        return {"kind": "subdivide_by_length_far_offset_exact", "exact": True, "v": pts, "closed": closed,
+                "max_length": rng.choice([0.25, 0.5, 1.0, 2.0]), "mask": mask}
+    ne = len(segs)
+    idx = rng.sample(range(ne), rng.randint(1, ne))
+    return {"kind": "bisect_far_offset_exact", "v": pts, "closed": closed, "idx": idx, "plain": rng.random() < 0.3}
+
+
 def gen_cases(rng, n, tier):
     cases = []
     while len(cases) < n:
@@ -211,6 +252,9 @@ def gen_cases(rng, n, tier):
         segs = _segs(pts, closed)
         lens = [math.dist(a, b) for a, b in segs]
         total = sum(lens)
+        if rng.random() < 0.11:
+            cases.append(_far_offset_case(rng))
+            continue
         if u < 0.12:
             if rng.random() < 0.1:
                 pts = [pts[0]] * rng.randint(1, 3)           # zero total length: path_centroid refuses
@@ -358,7 +402,7 @@ def run_impl(c):
                 r = subdivide_segments(v, c["num"])
                 return {"pts": r.tolist(), "args_unchanged": bool(np.array_equal(before, v))}
             pl = Polyline(v, is_closed=c["closed"])
-            if c["kind"] == "lengths":
+            if c["kind"].startswith("lengths"):
                 out = {"lens": pl.segment_lengths.tolist(), "total": float(pl.total_length)}
                 out["centroid"] = call_impl(lambda: pl.path_centroid.tolist())
                 out["centroid_fn"] = call_impl(lambda: path_centroid(pl.segments).tolist())
@@ -401,7 +445,7 @@ def _res(o, ok):
 
 def coq_case(c, o):
     k = c["kind"]
-    if k == "lengths":
+    if k.startswith("lengths"):
         if "raise" in o:
             return "CLengths %s [FNan] FNan (Raise OtherError)" % _pl(c)
         cen = o["centroid"]
@@ -435,6 +479,15 @@ SEGS_ZERO = "subdivide_segments returns NaN rows for a zero-length segment"
 
 
 def _mag(*lists):
+    """FEATURE size: spread of the input points around the first one (a scene may sit far from the origin; an error of the
+    size of the scene must be seen however large the coordinates are)"""
+    pts = [p for l in lists for p in l]
+    if not pts:
+        return 0.0
+    return max(abs(float(x) - float(r)) for p in pts for x, r in zip(p, pts[0]))
+
+
+def _absmag(*lists):
     return max([0.0] + [abs(float(x)) for l in lists for p in l for x in p])
 
 
@@ -583,7 +636,7 @@ def oracle(c, o):
                 if not _near(row, [v[e][t] + (j / num) * (v[e + 1][t] - v[e][t]) for t in range(3)], tol):
                     return "segment %d: point %d is not evenly spaced" % (e, j)
         return None if pts[-1] == v[-1] else "last vertex not returned"
-    if k == "lengths":
+    if k.startswith("lengths"):
         segs = _segs(c["v"], c["closed"])
         mag = _mag(c["v"])
         lens = [math.dist(a, b) for a, b in segs]
@@ -599,7 +652,8 @@ def oracle(c, o):
         if isinstance(cen, dict):
             return "path_centroid raised %s on a polyline of positive length" % cen["raise"]
         want = [sum(l * (a[t] + b[t]) / 2 for l, (a, b) in zip(lens, segs)) / sum(lens) for t in range(3)]
-        return None if _near(cen, want, 1e-8 * mag) else "path_centroid is not the length-weighted mean of the midpoints"
+        # the centroid divides by the total length: its rounding is relative to the coordinates themselves
+        return None if _near(cen, want, 1e-8 * max(mag, 1e-6 * _absmag(c["v"]))) else "path_centroid is not the length-weighted mean of the midpoints"
     # point_along_path
     bad = any(f < 0 or f > 1 for f in c["fs"])
     v, closed = c["v"], c["closed"]
